@@ -1,6 +1,6 @@
 (* C12 - Earlier figures do not change when later transactions are added.  Statements only. *)
-From Coq Require Import QArith Qcanon ZArith List Bool.
-Require Import CGT.Model.Num CGT.Model.Match CGT.Proofs.MatchFacts.
+From Coq Require Import QArith Qcanon ZArith List Bool Lia.
+Require Import CGT.Model.Num CGT.Model.Match CGT.Proofs.MatchFacts CGT.Proofs.MatchInv CGT.Proofs.MatchPrefix.
 Import ListNotations.
 Open Scope Qc_scope.
 
@@ -9,4 +9,39 @@ Theorem C12_lookahead_bounded : forall w offs d fut1 fut2 R rem cl,
   (forall e, In e fut2 -> (dt e - dt d > w)%Z) ->
   bnb w offs d (fut1 ++ fut2) R rem cl = bnb w offs d fut1 R rem cl.
 Proof. exact bnb_beyond. Qed.
+
+(* Appending days of a security that are more than w (= 30) days after every day of the prefix and carry no
+   capital-return / accumulation events:
+   - if the prefix is refused, the extended history is refused with the same error;
+   - if the prefix is accepted, either the extended history is accepted and its disposals are exactly the prefix's
+     disposals (same dates, legs, quantities, costs, proceeds, gains - the same list) followed by disposals dated in
+     the continuation, or it is refused with an error whose date lies in the continuation - never because of the
+     earlier period. *)
+Theorem C12_prefix_stable : forall w p far, no_events far ->
+  (forall d e, In d p -> In e far -> (dt e - dt d > w)%Z) ->
+  match run w p with
+  | inl e => run w (p ++ far) = inl e
+  | inr sp =>
+      match run w (p ++ far) with
+      | inl e => In (err_date e) (dates far)
+      | inr s' => exists L, m_disp s' = m_disp sp ++ L /\ Forall (fun x => In (fst x) (dates far)) L
+      end
+  end.
+Proof. exact run_prefix_stable. Qed.
+
+(* non-vacuity: a prefix with a disposal, and a continuation 31 days later that sells more than is held *)
+Example C12_witness :
+  let p := [ {| dt := 0; bq := Q2Qc 10; bcost := Q2Qc 10; hasbuy := true; sq := 0; sgross := 0; sfees := 0; hassell := false; evs := []; ratio := 1 |};
+             {| dt := 5; bq := 0; bcost := 0; hasbuy := false; sq := Q2Qc 4; sgross := Q2Qc 8; sfees := 0; hassell := true; evs := []; ratio := 1 |} ] in
+  let far := [ {| dt := 36; bq := Q2Qc 3; bcost := Q2Qc 9; hasbuy := true; sq := 0; sgross := 0; sfees := 0; hassell := false; evs := []; ratio := 1 |};
+               {| dt := 70; bq := 0; bcost := 0; hasbuy := false; sq := Q2Qc 100; sgross := Q2Qc 100; sfees := 0; hassell := true; evs := []; ratio := 1 |} ] in
+  no_events far /\ (forall d e, In d p -> In e far -> (dt e - dt d > 30)%Z) /\
+  (exists sp, run 30 p = inr sp) /\ run 30 (p ++ far) = inl (EExceedsHolding 70).
+Proof.
+  cbn zeta. split; [intros e [<-|[<-|[]]]; reflexivity|]. split.
+  - intros d e [<-|[<-|[]]] [<-|[<-|[]]]; cbn; lia.
+  - split; [eexists; vm_compute; reflexivity|vm_compute; reflexivity].
+Qed.
+
 Print Assumptions C12_lookahead_bounded.
+Print Assumptions C12_prefix_stable.
